@@ -19,7 +19,7 @@ META = {
               'same id/layout); every leaf field value is symbolic over its '
               'wire domain (integers: full range; VarInt [0,2^32), VarLong '
               '[0,2^64); Float/Double: all non-NaN values; lossy codecs '
-              '(Angle, FixedPoint, EffectPosition): values on the codec grid; '
+              '(Angle, FixedPoint, EffectPosition, old Pitch): concrete grid points chosen by fork (the codecs are decided for all values in C02); '
               'strings of 1 arbitrary scalar value (thorough: 2); byte '
               'arrays of 2 bytes; arrays of 0..2 elements); structural '
               'choices (action/event kind, optional fields, counts, width '
@@ -78,12 +78,14 @@ class Gen:
     """generates a symbolic value for a wire type and knows how to compare
     the decoded value with it"""
 
-    def __init__(self, ctx, cx, strlen=1, arrmax=2):
+    def __init__(self, ctx, cx, strlen=1, arrmax=2, lite=False):
         self.ctx = ctx
         self.cx = cx
         self.strlen = strlen
-        self.arrmax = arrmax
+        self.arrmax = 1 if lite else arrmax
+        self.lite = lite
         self.n = 0
+        self.nstr = 0
 
     def name(self, stem):
         self.n += 1
@@ -95,7 +97,16 @@ class Gen:
         tn = _tname(typ)
         nm = self.name(stem)
         if tn in INT_RANGES and isinstance(typ, type):
-            return ctx.int(nm, *INT_RANGES[tn])
+            lo, hi = INT_RANGES[tn]
+            if self.lite and Ctx.cur.env.get('repr_only'):
+                # textual form only: small values (enum names fork per value)
+                lo, hi = max(lo, -2), min(hi, 9)
+            if self.lite and tn in ('VarInt', 'VarLong'):
+                # quick tier: one- and two-byte VarInts only (every VarInt
+                # field otherwise forks into 5-10 length classes; the full
+                # range is C02/C03's subject and the thorough tier's)
+                hi = (1 << 14) - 1
+            return ctx.int(nm, lo, hi)
         if typ is t.Boolean:
             return ctx.bool(nm)
         if typ is t.Float:
@@ -107,7 +118,9 @@ class Gen:
             ctx.assume(z3.Not(z3.fpIsNaN(fp.F(v))))
             return v
         if typ is t.String:
-            return sstr.ctx_str(ctx, nm, self.strlen)
+            self.nstr += 1
+            return sstr.ctx_str(ctx, nm, self.strlen,
+                                ascii_only=self.lite and self.nstr > 1)
         if typ is t.UUID:
             return models.uuid_input(ctx, nm)
         if typ is t.Position:
@@ -115,14 +128,18 @@ class Gen:
                 ctx.int(nm + '.x', -(1 << 25), (1 << 25) - 1),
                 ctx.int(nm + '.y', -(1 << 11), (1 << 11) - 1),
                 ctx.int(nm + '.z', -(1 << 25), (1 << 25) - 1))
+        # Lossy float codecs: the codec itself is decided for ALL values in
+        # C02 (incl. encode(decode(b)) == b for all 256 angle bytes); here
+        # the value is a concrete grid point chosen by fork, so that the
+        # packet-level check does not repeat the floating-point proof on
+        # every version class (48 s per path when tried symbolically).
         if typ is t.Angle:
-            b = ctx.int(nm, 0, 255)
-            return 360 * b / 256 if ctx.mode == 'conc' else \
-                fp.int_truediv(360 * b, 256)
+            b = ctx.choice(nm, [1, 255] if self.lite else [0, 1, 128, 255])
+            return 360 * b / 256
         if isinstance(typ, t.FixedPoint):
             itn = _tname(typ.integer_type)
             lo, hi = INT_RANGES[itn]
-            i = ctx.int(nm, lo, hi)
+            i = ctx.choice(nm, [lo, 33] if self.lite else [lo, -1, 0, 33, hi])
             return i / typ.denominator
         if typ in (t.TrailingByteArray, t.VarIntPrefixedByteArray,
                    t.ShortPrefixedByteArray):
@@ -134,8 +151,10 @@ class Gen:
             return [self.value(typ.element_type, stem + '[%d]' % i)
                     for i in range(k)]
         if tn == 'EffectPosition':
-            return t.Vector(*[ctx.int('%s.%d' % (nm, i), -(1 << 31),
-                                      (1 << 31) - 1) / 8.0
+            return t.Vector(*[ctx.choice('%s.%d' % (nm, i),
+                                         [-(1 << 31), 9] if self.lite else
+                                         [-(1 << 31), -1, 0, 9,
+                                          (1 << 31) - 1]) / 8.0
                               for i in range(3)])
         if tn == 'Pitch':
             if self.cx.protocol_later_eq(201):
@@ -146,7 +165,8 @@ class Gen:
                     ctx.assume(z3.fpLT(z3.fpAbs(fp.F(v)),
                                        fp.fval(float(2 ** 20))))
                 return v
-            b = ctx.int(nm, -128, 127)
+            b = ctx.choice(nm, [-128, 64] if self.lite else
+                           [-128, -1, 0, 1, 64, 127])
             return b / 63.5
         if tn == 'ChunkSectionPos':
             return typ(ctx.int(nm + '.x', -(1 << 21), (1 << 21) - 1),
@@ -291,6 +311,8 @@ def _get_class(ctx, direction, state, cname, cx):
 
 
 def _roundtrip(ctx, P, cx, pkt, compare, label):
+    if ctx.env.get('repr_only'):
+        return _repr_only(ctx, P, cx, pkt, label)
     """write pkt, check the id on the wire, read back with the same class,
     compare, check nothing is left unread, produce both reprs.
 
@@ -301,9 +323,20 @@ def _roundtrip(ctx, P, cx, pkt, compare, label):
     version" is decided for every possible registered id without forking
     through every ladder rung (which multiplied the paths tenfold)."""
     from minecraft.networking.types import VarInt
-    pid_any = ctx.int('registered_id', 0, 0x7F)
+    from minecraft.networking.packets import Packet as _Packet
+    static_id = None
+    for c in P.__mro__:
+        if c is _Packet:
+            break
+        if 'id' in vars(c):
+            static_id = vars(c)['id']
+            break
     real_get_id = P.__dict__.get('get_id')
-    P.get_id = staticmethod(lambda _context: pid_any)
+    if static_id is None:
+        pid_any = ctx.int('registered_id', 0, 0x7F)
+        P.get_id = staticmethod(lambda _context: pid_any)
+    else:
+        pid_any = static_id           # the class carries a fixed id
     try:
         buf = new_buffer()
         pkt.write(buf)
@@ -318,15 +351,14 @@ def _roundtrip(ctx, P, cx, pkt, compare, label):
         q.read(buf)
         conds.append(z3.BoolVal(remaining(buf) == 0))
         conds.append(compare(q))
-        # the textual form is produced with a concrete id ('0x%02X' needs a
-        # native int; formatting a symbolic one would fork 128 ways)
-        P.get_id = staticmethod(lambda _context: 0x11)
-        for o in (pkt, q):
-            r = repr(o)
-            conds.append(z3.BoolVal(isinstance(r, str) and
-                                    type(o).__name__ in r))
+        # the textual form of the decoded packet is produced here with
+        # concrete stand-ins where formatting would fork; the textual form
+        # for ALL field values is the subject of the separate 'repr:'
+        # instances (so that enum-name forks do not multiply the codec paths)
     finally:
-        if real_get_id is None:
+        if static_id is not None:
+            pass
+        elif real_get_id is None:
             del P.get_id
         else:
             P.get_id = real_get_id
@@ -334,15 +366,40 @@ def _roundtrip(ctx, P, cx, pkt, compare, label):
     return z3.And(*conds)
 
 
-def generic(ctx, direction, state, cname, strlen=1, sentinel=False):
+def _repr_only(ctx, P, cx, pkt, label):
+    """the textual representation can be produced for every field value"""
+    from minecraft.networking.packets import Packet as _Packet
+    has_static = any('id' in vars(c) for c in P.__mro__
+                     if c is not _Packet and c is not object)
+    real_get_id = P.__dict__.get('get_id')
+    if not has_static:
+        P.get_id = staticmethod(lambda _context: 0x11)
+    try:
+        r = repr(pkt)
+    finally:
+        if has_static:
+            pass
+        elif real_get_id is None:
+            del P.get_id
+        else:
+            P.get_id = real_get_id
+    ctx.notes['label'] = label
+    return z3.BoolVal(isinstance(r, str) and type(pkt).__name__ in r)
+
+
+def generic(ctx, direction, state, cname, strlen=1, sentinel=False,
+            lite=False, repr_only=False):
     import minecraft
     pv = sym_version(ctx, 'pv', list(minecraft.SUPPORTED_PROTOCOL_VERSIONS))
     cx = _ctxobj(pv)
     P = _get_class(ctx, direction, state, cname, cx)
-    note_key(ctx, 'C05:%s.%s.%s' % (direction, state, cname))
+    note_key(ctx, 'C05:%s.%s.%s%s' % (direction, state, cname,
+                                      ':repr' if repr_only else ''))
+    if repr_only:
+        ctx.env['repr_only'] = True
     if cname in SPECIAL:
-        return globals()['special_' + cname](ctx, P, cx, strlen)
-    g = Gen(ctx, cx, strlen=strlen)
+        return globals()['special_' + cname](ctx, P, cx, strlen, lite)
+    g = Gen(ctx, cx, strlen=strlen, lite=lite)
     defn = P.get_definition(cx)
     fields = []
     for d in defn:
@@ -368,8 +425,8 @@ def generic(ctx, direction, state, cname, strlen=1, sentinel=False):
 # hand-written packets
 # --------------------------------------------------------------------------
 
-def special_JoinGamePacket(ctx, P, cx, strlen):
-    g = Gen(ctx, cx, strlen=strlen)
+def special_JoinGamePacket(ctx, P, cx, strlen, lite=False):
+    g = Gen(ctx, cx, strlen=strlen, lite=lite)
     defn = P.get_definition(cx)
     fields = []
     for d in defn:
@@ -391,8 +448,8 @@ def special_JoinGamePacket(ctx, P, cx, strlen):
     return _roundtrip(ctx, P, cx, pkt, compare, 'JoinGamePacket')
 
 
-def special_ClientSettingsPacket(ctx, P, cx, strlen):
-    g = Gen(ctx, cx, strlen=strlen)
+def special_ClientSettingsPacket(ctx, P, cx, strlen, lite=False):
+    g = Gen(ctx, cx, strlen=strlen, lite=lite)
     fields = []
     for d in P.get_definition(cx):
         for name, typ in d.items():
@@ -407,8 +464,8 @@ def special_ClientSettingsPacket(ctx, P, cx, strlen):
     return _roundtrip(ctx, P, cx, pkt, compare, 'ClientSettingsPacket')
 
 
-def special_PluginResponsePacket(ctx, P, cx, strlen):
-    mid = ctx.int('message_id', 0, (1 << 32) - 1)
+def special_PluginResponsePacket(ctx, P, cx, strlen, lite=False):
+    mid = ctx.int('message_id', 0, (1 << 14) - 1 if lite else (1 << 32) - 1)
     succ = bool(ctx.bool('successful'))
     data = ctx.bytes('data', 2) if succ else None
     pkt = P(cx, message_id=mid, successful=succ, data=data)
@@ -422,8 +479,8 @@ def special_PluginResponsePacket(ctx, P, cx, strlen):
     return _roundtrip(ctx, P, cx, pkt, compare, 'PluginResponsePacket')
 
 
-def special_FacePlayerPacket(ctx, P, cx, strlen):
-    g = Gen(ctx, cx)
+def special_FacePlayerPacket(ctx, P, cx, strlen, lite=False):
+    g = Gen(ctx, cx, lite=lite)
     t = _t()
     is_entity = bool(ctx.bool('is_entity'))
     new = bool(cx.protocol_later_eq(353))
@@ -434,7 +491,7 @@ def special_FacePlayerPacket(ctx, P, cx, strlen):
         for n in 'xyz':
             vals[n] = g.value(t.Double, n)
     if is_entity:
-        vals['entity_id'] = ctx.int('entity_id', 0, (1 << 32) - 1)
+        vals['entity_id'] = ctx.int('entity_id', 0, (1 << 14) - 1 if lite else (1 << 32) - 1)
         if new:
             vals['entity_origin'] = ctx.int('entity_origin', 0, 1)
     else:
@@ -455,18 +512,18 @@ def special_FacePlayerPacket(ctx, P, cx, strlen):
     return _roundtrip(ctx, P, cx, pkt, compare, 'FacePlayerPacket')
 
 
-def special_CombatEventPacket(ctx, P, cx, strlen):
+def special_CombatEventPacket(ctx, P, cx, strlen, lite=False):
     kind = concretize(ctx.int('event', 0, 2))
     if kind == 0:
         ev = P.EnterCombatEvent()
         fields = []
     elif kind == 1:
-        fields = [('duration', ctx.int('duration', 0, (1 << 32) - 1)),
+        fields = [('duration', ctx.int('duration', 0, (1 << 14) - 1 if lite else (1 << 32) - 1)),
                   ('entity_id', ctx.int('entity_id', -(1 << 31),
                                         (1 << 31) - 1))]
         ev = P.EndCombatEvent(**dict(fields))
     else:
-        fields = [('player_id', ctx.int('player_id', 0, (1 << 32) - 1)),
+        fields = [('player_id', ctx.int('player_id', 0, (1 << 14) - 1 if lite else (1 << 32) - 1)),
                   ('entity_id', ctx.int('entity_id', -(1 << 31),
                                         (1 << 31) - 1)),
                   ('message', sstr.ctx_str(ctx, 'message', strlen))]
@@ -482,10 +539,10 @@ def special_CombatEventPacket(ctx, P, cx, strlen):
     return _roundtrip(ctx, P, cx, pkt, compare, 'CombatEventPacket')
 
 
-def special_SpawnObjectPacket(ctx, P, cx, strlen):
-    g = Gen(ctx, cx)
+def special_SpawnObjectPacket(ctx, P, cx, strlen, lite=False):
+    g = Gen(ctx, cx, lite=lite)
     t = _t()
-    vals = {'entity_id': ctx.int('entity_id', 0, (1 << 32) - 1)}
+    vals = {'entity_id': ctx.int('entity_id', 0, (1 << 14) - 1 if lite else (1 << 32) - 1)}
     if cx.protocol_later_eq(49):
         vals['object_uuid'] = models.uuid_input(ctx, 'object_uuid')
     # a known and an unknown entity type (concrete: the textual form looks
@@ -522,10 +579,10 @@ def special_SpawnObjectPacket(ctx, P, cx, strlen):
     return _roundtrip(ctx, P, cx, pkt, compare, 'SpawnObjectPacket')
 
 
-def special_PlayerListItemPacket(ctx, P, cx, strlen):
+def special_PlayerListItemPacket(ctx, P, cx, strlen, lite=False):
     kind = concretize(ctx.int('action', 0, 4))
     A = P.Action.type_from_id(kind)
-    n_act = concretize(ctx.int('n_actions', 0, 2))
+    n_act = concretize(ctx.int('n_actions', 0, 1 if lite else 2))
     acts, specs = [], []
     for i in range(n_act):
         u = models.uuid_input(ctx, 'uuid%d' % i)
@@ -542,9 +599,9 @@ def special_PlayerListItemPacket(ctx, P, cx, strlen):
                     if signed else None))
             f['properties'] = props
         if kind in (0, 1):
-            f['gamemode'] = ctx.int('gm%d' % i, 0, (1 << 32) - 1)
+            f['gamemode'] = ctx.int('gm%d' % i, 0, (1 << 14) - 1 if lite else (1 << 32) - 1)
         if kind in (0, 2):
-            f['ping'] = ctx.int('ping%d' % i, 0, (1 << 32) - 1)
+            f['ping'] = ctx.int('ping%d' % i, 0, (1 << 14) - 1 if lite else (1 << 32) - 1)
         if kind in (0, 3):
             f['display_name'] = sstr.ctx_str(ctx, 'dn%d' % i, strlen) \
                 if bool(ctx.bool('has_dn%d' % i)) else None
@@ -583,13 +640,13 @@ def special_PlayerListItemPacket(ctx, P, cx, strlen):
     return _roundtrip(ctx, P, cx, pkt, compare, 'PlayerListItemPacket')
 
 
-def special_MapPacket(ctx, P, cx, strlen):
-    vals = {'map_id': ctx.int('map_id', 0, (1 << 32) - 1),
+def special_MapPacket(ctx, P, cx, strlen, lite=False):
+    vals = {'map_id': ctx.int('map_id', 0, (1 << 14) - 1 if lite else (1 << 32) - 1),
             'scale': ctx.int('scale', -128, 127)}
     track = ctx.bool('is_tracking_position') \
         if cx.protocol_later_eq(107) else True
     locked = ctx.bool('is_locked') if cx.protocol_later_eq(452) else False
-    n_icons = concretize(ctx.int('n_icons', 0, 2))
+    n_icons = concretize(ctx.int('n_icons', 0, 1 if lite else 2))
     icons = []
     new_icons = bool(cx.protocol_later_eq(373))
     named = bool(cx.protocol_later_eq(364))
@@ -672,7 +729,7 @@ def _random_definition(rnd, depth=0):
     return out
 
 
-def userdef(ctx, seed, first, count):
+def userdef(ctx, seed, first, count, lite=False):
     """`count` seeded random field-list definitions starting at index
     `first`; the choice among them forks, every field value is symbolic"""
     from minecraft.networking.packets import Packet
@@ -683,7 +740,7 @@ def userdef(ctx, seed, first, count):
     P = type('User%d' % k, (Packet,), {
         'id': pid, 'packet_name': 'user %d' % k, 'definition': defn})
     cx = _ctxobj(757)
-    g = Gen(ctx, cx, strlen=1, arrmax=2)
+    g = Gen(ctx, cx, strlen=1, arrmax=2, lite=lite)
     fields = []
     for d in defn:
         for name, typ in d.items():
@@ -709,13 +766,21 @@ def instances(tier, seed):
         out.append(Instance(
             '%s.%s.%s' % (direction, state, cname), 'generic',
             {'direction': direction, 'state': state, 'cname': cname,
-             'strlen': 1 if heavy else strlen}, W=96,
+             'strlen': 1 if heavy else strlen,
+             'lite': tier != 'thorough'}, W=96,
             budget_s=3000, witness_every=5 if heavy else 1,
             max_decisions=100000))
+    for direction, state, cname in all_classes():
+        out.append(Instance(
+            'repr:%s.%s.%s' % (direction, state, cname), 'generic',
+            {'direction': direction, 'state': state, 'cname': cname,
+             'strlen': 1, 'lite': tier != 'thorough', 'repr_only': True},
+            W=96, budget_s=3000, witness_every=7, max_decisions=100000))
     nprog = 120 if tier == 'thorough' else 20
     for first in range(0, nprog, 5):
         out.append(Instance('userdef:%d-%d' % (first, first + 4), 'userdef',
-                            {'seed': seed, 'first': first, 'count': 5},
+                            {'seed': seed, 'first': first, 'count': 5,
+                             'lite': tier != 'thorough'},
                             W=96, budget_s=1800, witness_every=3))
     out.append(Instance('sentinel:generic', 'generic',
                         {'direction': 'clientbound', 'state': 'play',
